@@ -233,6 +233,38 @@ def text_literals(chk):
         if po[i] != po[len(pct) + i] or po[2 * len(pct) + i] != 'T':
             chk.violation({'why': 'a percent applied to a numeric literal differs from the percent applied to a cell holding the same number', 'formula': '=%s%%' % d,
                            'literal': po[i], 'cell': po[len(pct) + i], 'stream': 'text-literals'})
+    # long runs of one operator over values whose sum / product depends on the grouping: equal levels associate to the LEFT (cells, literals, overrides)
+    import functools, operator as _op
+    runs = [[0.1, 0.1, 0.2, 0.5], [0.1, 0.2, 0.3, 0.4, 0.5, 0.6], [0.1, 0.7, 0.3], [1.1, 1.1, 1.1, 1.1, 1.1], [3, 0.1, 0.1, 0.1, 0.1, 0.1, 0.1, 0.1],
+            [0.3, 0.3, 0.3, 1e15], [7, 1e-16, 1e-16, 1e-16, 1e-16], [1.5e16, 1.3, 1.3, 1.3], [0.7, 0.1, 0.1, 0.1, 0.1, 0.1, 0.1, 0.1]]       # (whole numbers are exact integers here: left out)
+    for sym, fn in (('+', _op.add), ('*', _op.mul), ('-', _op.sub)):
+        for route in ('cell', 'literal', 'override'):
+            forms, wants = [], []
+            for r, vs in enumerate(runs):
+                ops = ['%s%d' % ('ABCDEFGH'[i], r + 1) for i in range(len(vs))] if route != 'literal' else [repr(v).replace('e+', 'e') for v in vs]
+                forms.append('=' + sym.join(ops))
+                try:
+                    wants.append(core.enc(functools.reduce(fn, vs)))
+                except (OverflowError, core.Unencodable):
+                    wants.append(None)          # infinite in Python: the property fixes nothing
+            vals = {(i, r): v for r, vs in enumerate(runs) for i, v in enumerate(vs)}
+            if route == 'override':
+                outs = realcode.eval_formulas(forms, {k: 1 for k in vals}, overrides=vals, min_fcol=9)
+            else:
+                outs = realcode.eval_formulas(forms, vals if route == 'cell' else {}, min_fcol=9)
+            for f, o, w, vs in zip(forms, outs, wants, runs):
+                chk.count('text-literal')
+                if w is not None and o != w:
+                    chk.violation({'why': 'a run of one operator is not evaluated from the left', 'formula': f, 'operands': repr(vs), 'route': route, 'impl': o, 'want': w,
+                                   'stream': 'left-to-right'})
+    # text operands supplied by overrides are the operands: a text that reads as a number stays the text it is under &
+    tov = ['007', '0042', '1e3', ' 12 ', '5', '-0', '1_0', 'TRUE', '']
+    o1 = realcode.eval_formulas(['=A%d&"-x"' % (i + 1) for i in range(len(tov))] + ['=A%d&A%d' % (i + 1, i + 1) for i in range(len(tov))], {(0, i): 'w' for i in range(len(tov))},
+                                overrides={(0, i): t for i, t in enumerate(tov)}, min_fcol=2)
+    for i, t in enumerate(tov):
+        chk.count('text-literal')
+        if o1[i] != core.enc(t + '-x') or o1[len(tov) + i] != core.enc(t + t):
+            chk.violation({'why': 'a text supplied by an override is not the operand of &', 'override': repr(t), 'impl': [o1[i], o1[len(tov) + i]], 'want': t + '-x', 'stream': 'text-overrides'})
     texts = ['US$ ', '$', 'a,b ,c', 'a', 'a  b', ' a', 'a ', 'a\tb', 'two\nlines', 'it\'s', 'q"q', '"', '""', '*"', '"*', '?"x"', 'a*"b', 'v1.0', '2.0', '007', '1e3', '', 'TRUE', 'x~*', '*', 'a?c']
     lit = lambda t: '"' + t.replace('"', '""') + '"'
     formulas, wants = [], []
